@@ -6,7 +6,7 @@ VERIF="$(cd "$(dirname "$0")" && pwd)"
 S="/tmp/mut-$$-$PROP"
 rm -rf "$S"; mkdir -p "$S"
 rsync -a --exclude .git /repo/ "$S/" || exit 2
-(cd "$S" && patch -p1 -s < "$PATCH") || { echo "patch failed"; rm -rf "$S"; exit 2; }
+(cd "$S" && patch -p1 -s -t -N --no-backup-if-mismatch < "$PATCH") || { echo "patch failed"; rm -rf "$S"; exit 2; }
 VERIF_REPO="$S" VERIF_WORKTAG="-mut$$" VERIF_NOEVIDENCE=1 "$VERIF/run.sh" "$PROP" "$TIER"
 rc=$?
 rm -rf "$S" "$VERIF/.work/b-$PROP-mut$$"
